@@ -11,7 +11,37 @@ use tracing::{debug, error, Instrument};
 /// Used for on_start, message handler, on_stop.
 macro_rules! run_with_actor_scope {
     ($actor_id:expr, $fut:expr) => {{
-        #[cfg(rsactor_verif)]
+        #[cfg(feature = "deadlock-detection")]
+        {
+            crate::CURRENT_ACTOR.scope($actor_id, $fut).await
+        }
+        #[cfg(not(feature = "deadlock-detection"))]
+        {
+            $fut.await
+        }
+    }};
+}
+
+/// Wrap a future with CURRENT_ACTOR scope without awaiting.
+/// Used for tokio::select! branch expressions (on_run).
+macro_rules! with_actor_scope {
+    ($actor_id:expr, $fut:expr) => {{
+        #[cfg(feature = "deadlock-detection")]
+        {
+            crate::CURRENT_ACTOR.scope($actor_id, $fut)
+        }
+        #[cfg(not(feature = "deadlock-detection"))]
+        {
+            $fut
+        }
+    }};
+}
+
+/// Verification builds (`--cfg rsactor_verif`) shadow the two macros above with versions that also log the hook's entry,
+/// its outcome, and its being unwound or dropped (see `crate::__verif`).  Same expansion otherwise.
+#[cfg(rsactor_verif)]
+macro_rules! run_with_actor_scope {
+    ($actor_id:expr, $fut:expr) => {{
         let __verif_hook = crate::__verif::HookGuard::enter(&$actor_id, stringify!($fut));
         let __scope_out = {
             #[cfg(feature = "deadlock-detection")]
@@ -23,7 +53,6 @@ macro_rules! run_with_actor_scope {
                 $fut.await
             }
         };
-        #[cfg(rsactor_verif)]
         {
             #[allow(unused_imports)]
             use crate::__verif::{CodeAny as _, CodeRes as _, CodeRun as _};
@@ -33,8 +62,7 @@ macro_rules! run_with_actor_scope {
     }};
 }
 
-/// Wrap a future with CURRENT_ACTOR scope without awaiting.
-/// Used for tokio::select! branch expressions (on_run).
+#[cfg(rsactor_verif)]
 macro_rules! with_actor_scope {
     ($actor_id:expr, $fut:expr) => {{
         let __scope_fut = {
@@ -47,21 +75,17 @@ macro_rules! with_actor_scope {
                 $fut
             }
         };
-        #[cfg(rsactor_verif)]
-        let __scope_fut = {
-            let __verif_id = $actor_id;
-            async move {
-                let __verif_hook = crate::__verif::HookGuard::enter(&__verif_id, stringify!($fut));
-                let __scope_out = __scope_fut.await;
-                {
-                    #[allow(unused_imports)]
-                    use crate::__verif::{CodeAny as _, CodeRes as _, CodeRun as _};
-                    __verif_hook.exit((&&&crate::__verif::Probe(&__scope_out)).verif_code());
-                }
-                __scope_out
+        let __verif_id = $actor_id;
+        async move {
+            let __verif_hook = crate::__verif::HookGuard::enter(&__verif_id, stringify!($fut));
+            let __scope_out = __scope_fut.await;
+            {
+                #[allow(unused_imports)]
+                use crate::__verif::{CodeAny as _, CodeRes as _, CodeRun as _};
+                __verif_hook.exit((&&&crate::__verif::Probe(&__scope_out)).verif_code());
             }
-        };
-        __scope_fut
+            __scope_out
+        }
     }};
 }
 
